@@ -435,12 +435,20 @@ Fixpoint remn (x : nat) (l : list nat) : list nat :=
    opause  : (r, l): r paused when the queue held l; everybody in l must run before r does
    odeq    : the previous event was EDeq c (then this one must be ERun c) *)
 Record ost := mkO { oq : list nat; orun : list nat; ofin : list nat; oblig : list (nat * nat);
-                    opause : list (nat * list nat); odeq : option nat }.
-Definition ost0 : ost := mkO [] [] [] [] [] None.
+                    opause : list (nat * list nat); odeq : option nat;
+                    onest : list nat;              (* coroutines inside async::start() (ENest without EBack) *)
+                    ostamp : list (nat * nat);     (* coroutine -> time of its last ESusp (subscription order) *)
+                    otime : nat;
+                    ogrp : list nat }.             (* handles of ONE suspend point queued by the immediately preceding events *)
+Definition ost0 : ost := mkO [] [] [] [] [] None [] [] 0 [].
 
 Definition drop_waker (r : nat) (l : list (nat * nat)) : list (nat * nat) :=
   filter (fun p => negb (Nat.eqb (snd p) r)) l.
 Definition has_target (c : nat) (l : list (nat * nat)) : bool := existsb (fun p => Nat.eqb (fst p) c) l.
+
+Fixpoint assoc {A} (k : nat) (l : list (nat * A)) : option A :=
+  match l with [] => None | (k', v) :: t => if Nat.eqb k k' then Some v else assoc k t end.
+Definition stamp_of (o : ost) (c : nat) : nat := match assoc c (ostamp o) with Some t => S t | None => 0 end.
 
 (* pause obligations when c runs: r = c must have nothing left; the others tick c off *)
 Fixpoint pause_run (c : nat) (l : list (nat * list nat)) : option (list (nat * list nat)) :=
@@ -454,41 +462,60 @@ Fixpoint pause_run (c : nat) (l : list (nat * list nat)) : option (list (nat * l
       end
   end.
 
+(* handles leave a suspend point youngest subscription first; the one resumed directly is the oldest *)
+Definition older_than_group (o : ost) (c : nat) : bool :=
+  match rev (ogrp o) with [] => true | l :: _ => Nat.ltb (stamp_of o c) (stamp_of o l) end.
+
 (* lenient = true: a nested start() by r counts like a suspension of r (used only to CLASSIFY a failure) *)
-Definition ostep (lenient : bool) (o : ost) (e : event) : option ost :=
-  let follows := match odeq o with
+Definition ostep (lenient : bool) (o0 : ost) (e : event) : option ost :=
+  let follows := match odeq o0 with
                  | Some c => match e with ERun c' => Nat.eqb c c' | _ => false end
                  | None => true end in
   if negb follows then None else
-  let o := mkO (oq o) (orun o) (ofin o) (oblig o) (opause o) None in
+  let o := mkO (oq o0) (orun o0) (ofin o0) (oblig o0) (opause o0) None (onest o0) (ostamp o0) (otime o0) [] in
   match e with
   | ERun c =>
       if memn c (orun o) || memn c (ofin o) || has_target c (oblig o) || memn c (oq o) then None else
+      (* nobody else may be running, except callers blocked inside async::start() *)
+      if negb (forallb (fun r => memn r (onest o)) (orun o)) then None else
+      if negb (older_than_group o0 c) then None else
       match pause_run c (opause o) with
       | None => None
-      | Some p => Some (mkO (oq o) (c :: orun o) (ofin o) (oblig o) p None)
+      | Some p => Some (mkO (oq o) (c :: orun o) (ofin o) (oblig o) p None (onest o) (ostamp o) (otime o) [])
       end
   | ESusp c =>
-      if memn c (orun o) then Some (mkO (oq o) (remn c (orun o)) (ofin o) (drop_waker c (oblig o)) (opause o) None)
+      if memn c (orun o)
+      then Some (mkO (oq o) (remn c (orun o)) (ofin o) (drop_waker c (oblig o)) (opause o) None (onest o)
+                     ((c, otime o) :: ostamp o) (S (otime o)) [])
       else None
   | EFin c _ =>
-      if memn c (orun o) then Some (mkO (oq o) (remn c (orun o)) (c :: ofin o) (drop_waker c (oblig o)) (opause o) None)
+      if memn c (orun o)
+      then Some (mkO (oq o) (remn c (orun o)) (c :: ofin o) (drop_waker c (oblig o)) (opause o) None (onest o)
+                     (ostamp o) (otime o) [])
       else None
+  | EFree _ => Some (mkO (oq o) (orun o) (ofin o) (oblig o) (opause o) None (onest o) (ostamp o) (otime o) (ogrp o0))
   | EEnq c r why =>
       if memn c (oq o) || memn c (orun o) || memn c (ofin o) then None else
       let ob := if Z.eqb why why_discard && negb (Nat.eqb r 0) then (c, r) :: oblig o else oblig o in
       let pa := if Z.eqb why why_pause then (c, oq o) :: opause o else opause o in
-      Some (mkO (oq o ++ [c]) (orun o) (ofin o) ob pa None)
+      let grouped := Z.eqb why why_discard || Z.eqb why why_spawait || Z.eqb why why_final in
+      if grouped && negb (older_than_group o0 c) then None else
+      Some (mkO (oq o ++ [c]) (orun o) (ofin o) ob pa None (onest o) (ostamp o) (otime o)
+                (if grouped then ogrp o0 ++ [c] else ogrp o0))
   | EDeq c =>
       match oq o with
-      | x :: q => if Nat.eqb x c then Some (mkO q (orun o) (ofin o) (oblig o) (opause o) (Some c)) else None
+      | x :: q => if Nat.eqb x c then Some (mkO q (orun o) (ofin o) (oblig o) (opause o) (Some c) (onest o) (ostamp o) (otime o) [])
+                  else None
       | [] => None
       end
   | EIdle a q =>
       if a || negb (Nat.eqb q 0) then None else
       match oq o, orun o with [], [] => Some o | _, _ => None end
   | EEnd _ _ => match oq o with [] => Some o | _ => None end
-  | ENest r _ => if lenient then Some (mkO (oq o) (orun o) (ofin o) (drop_waker r (oblig o)) (opause o) None) else Some o
+  | ENest r _ =>
+      Some (mkO (oq o) (orun o) (ofin o) (if lenient then drop_waker r (oblig o) else oblig o) (opause o) None
+                (r :: onest o) (ostamp o) (otime o) [])
+  | EBack r => Some (mkO (oq o) (orun o) (ofin o) (oblig o) (opause o) None (remn r (onest o)) (ostamp o) (otime o) [])
   | _ => Some o
   end.
 
@@ -506,9 +533,6 @@ Definition c05_ok (lenient : bool) (t : list event) : bool := orun_all lenient o
 Record cst := mkC { cmk : list nat; cfree : list nat; cfin : list nat; cbind : list (nat * binding);
                     cres : list (nat * res); fres : list (nat * res) }.
 Definition cst0 : cst := mkC [] [] [] [] [] [].
-
-Fixpoint assoc {A} (k : nat) (l : list (nat * A)) : option A :=
-  match l with [] => None | (k', v) :: t => if Nat.eqb k k' then Some v else assoc k t end.
 
 Definition res_eqb (a b : res) : bool :=
   match a, b with
